@@ -118,6 +118,8 @@ def simplify_app(fname, attrs, args):
     return NF.const(cs[0])
   if fname == "recip" and cs[0] is not None and cs[0] != 0:
     return NF.const(1 / cs[0])
+  if fname == "recip" and args[0].single_monomial() is not None:
+    return args[0].inverse()
   if fname == "log" and cs[0] is not None:
     if cs[0] == 1:
       return NF.const(0)
@@ -169,11 +171,11 @@ class Fwd(object):
     self.memo = {}
 
   def __call__(self, t):
-    r = self.memo.get(t)
+    r = self.memo.get(id(t))
     if r is None:
-      r = self._fwd(t)
-      self.memo[t] = r
-    return r
+      r = (t, self._fwd(t))
+      self.memo[id(t)] = r
+    return r[1]
 
   def _fwd(self, t):
     k = t[0]
@@ -249,17 +251,21 @@ class Eval(object):
 
   def _occurrences(self, nf):
     counts = {}
+    seen = set()
     def visit_nf(p):
+      # every reference to p counts its top-level finite atoms again (p may
+      # be shared by several parents); recursion happens once per NF
+      first = p not in seen
+      seen.add(p)
       for m in p.terms:
         for a, _ in m:
-          visit_atom(a)
-    def visit_atom(a):
-      if a[0] == "app":
-        if a[1] in FINITE_ATOMS:
-          counts[a] = counts.get(a, 0) + 1
-        for arg in a[3]:
-          if isinstance(arg, NF):
-            visit_nf(arg)
+          if a[0] == "app":
+            if a[1] in FINITE_ATOMS:
+              counts[a] = counts.get(a, 0) + 1
+            if first:
+              for arg in a[3]:
+                if isinstance(arg, NF):
+                  visit_nf(arg)
     visit_nf(nf)
     return counts
 
@@ -283,7 +289,12 @@ class Eval(object):
         if vs.kind == "fin" and 0 < len(vs.vals) <= 3:
           out = V.EMPTY
           for v in sorted(vs.vals):
-            sub = nf.subst({a: NF.const(v)}, simplify_app)
+            try:
+              sub = nf.subst({a: NF.const(v)}, simplify_app)
+            except ZeroDivisionError:
+              # this case makes a denominator vanish (inf/nan at run time)
+              out = V.join(out, VS.real())
+              continue
             ev = Eval(self.env, self.split_budget - 1)
             out = V.join(out, ev.nf(sub))
           return out
@@ -499,12 +510,26 @@ class Eval(object):
         return None
       v = a * p + b
       return 1 if v > 0 else -1
+    sm = nf.single_monomial()
+    if sm is not None and (len(sm[0]) > 1 or (sm[0] and sm[0][0][1] != 1)):
+      # sign of a monomial = product of the signs of its factors
+      s = 1 if sm[1] > 0 else -1
+      for a, e in sm[0]:
+        sa = self.strict_sign(NF.atom(a))
+        if sa is None or (sa == 0 and e < 0):
+          s = None
+          break
+        if sa == 0:
+          return 0
+        if e % 2:
+          s *= sa
+      if s is not None:
+        return s
     v = self.nf(nf)
     if v.is_empty():
       return None
     lo, hi = v.bounds()
     if self.env.xsign is not None:
-      sm = nf.single_monomial()
       if sm is not None and sm[0] == ((("x",), 1),):
         return self.env.xsign * (1 if sm[1] > 0 else -1)
     if lo is not None and lo > 0:
@@ -638,6 +663,37 @@ class Eval(object):
     return V.join(self._refine(a, cond, True), self._refine(b, cond, False))
 
 
+def equal_mod_finite(a, b, env=None, max_atoms=3):
+  """a == b as functions, decided by normal-form identity after enumerating
+  the values of the finite-valued atoms (sign / comparison) they contain."""
+  d = a - b
+  if d.is_zero():
+    return True
+  ev = Eval(env or Env())
+  cands = []
+  for at in d.atoms():
+    if at[0] == "app" and at[1] in FINITE_ATOMS:
+      vs = ev.atom(at)
+      if vs.kind == "fin" and 0 < len(vs.vals) <= 3:
+        cands.append((at, sorted(vs.vals)))
+  if not cands:
+    return False
+  # innermost first
+  cands.sort(key=lambda c: len(NF.atom(c[0]).atoms()))
+  at, vals = cands[0]
+  if max_atoms <= 0:
+    return False
+  for v in vals:
+    try:
+      sa = a.subst({at: NF.const(v)}, simplify_app)
+      sb = b.subst({at: NF.const(v)}, simplify_app)
+    except ZeroDivisionError:
+      return False
+    if not equal_mod_finite(sa, sb, env, max_atoms - 1):
+      return False
+  return True
+
+
 def value_set(nf, env=None):
   return Eval(env or Env()).nf(nf)
 
@@ -664,11 +720,11 @@ class Deriv(object):
     self.unknown = []   # primitives left symbolic
 
   def __call__(self, t):
-    r = self.memo.get(t)
+    r = self.memo.get(id(t))
     if r is None:
-      r = self._d(t)
-      self.memo[t] = r
-    return r
+      r = (t, self._d(t))
+      self.memo[id(t)] = r
+    return r[1]
 
   def _affine_root(self, nf, target):
     """If nf == a*x + b (a != 0) return the x at which nf == target."""
